@@ -198,9 +198,11 @@ func projSil(s *spb.Silence, exp *timestamppb.Timestamp, crafted bool) string {
 
 const nSilShapes = 9
 
-func eq(n, v string) *spb.Matcher  { return &spb.Matcher{Type: spb.Matcher_EQUAL, Name: n, Pattern: v} }
-func re(n, v string) *spb.Matcher  { return &spb.Matcher{Type: spb.Matcher_REGEXP, Name: n, Pattern: v} }
-func neq(n, v string) *spb.Matcher { return &spb.Matcher{Type: spb.Matcher_NOT_EQUAL, Name: n, Pattern: v} }
+func eq(n, v string) *spb.Matcher { return &spb.Matcher{Type: spb.Matcher_EQUAL, Name: n, Pattern: v} }
+func re(n, v string) *spb.Matcher { return &spb.Matcher{Type: spb.Matcher_REGEXP, Name: n, Pattern: v} }
+func neq(n, v string) *spb.Matcher {
+	return &spb.Matcher{Type: spb.Matcher_NOT_EQUAL, Name: n, Pattern: v}
+}
 func nre(n, v string) *spb.Matcher {
 	return &spb.Matcher{Type: spb.Matcher_NOT_REGEXP, Name: n, Pattern: v}
 }
